@@ -162,9 +162,3 @@ def search(ctx, disagreements):
     for name, d in disagreements:
         pass
     return out
-
-
-def replay(payload):
-    case = payload.get("case", {})
-    print(case)
-    return 0
